@@ -880,9 +880,12 @@ func c14Found(e *c14Env, drv device.Driver) string {
 // classification
 
 // c14Spill reports whether a structure at arena offset off of n bytes occupies
-// more pages than n bytes starting at a page boundary would.
+// more pages than n bytes starting at a page boundary would, or its 36-byte
+// header alone crosses a page boundary. For exactly these placements the size
+// of the table (resp. of its header) does not tell how many pages starting at
+// its first frame have to be mapped (finding F-C14c).
 func c14Spill(off, n int) bool {
-	return (off%c14Page+n+c14Page-1)/c14Page > (n+c14Page-1)/c14Page
+	return (off%c14Page+n+c14Page-1)/c14Page > (n+c14Page-1)/c14Page || off%c14Page+36 > c14Page
 }
 
 func c14Classify(c *c14Case, e *c14Env) (nontrivial bool, labels []string) {
@@ -1134,7 +1137,7 @@ func c14GenCorrupt(t *rapid.T, tb *c14Table, percent int) {
 
 // c14GenGap chooses the distance to the previous structure so that the
 // structure of n bytes starts at an interesting place relative to the pages.
-func c14GenGap(t *rapid.T, cur, n int, avoidSpill bool) int {
+func c14GenGap(t *rapid.T, st *vlib.Stats, cur, n int, avoidSpill bool) int {
 	toPage := (c14Page - cur%c14Page) % c14Page // gap that makes the start page aligned
 	gap := 0
 	switch rapid.IntRange(0, 11).Draw(t, "gapclass") {
@@ -1161,6 +1164,7 @@ func c14GenGap(t *rapid.T, cur, n int, avoidSpill bool) int {
 	gap %= 2 * c14Page
 	if avoidSpill && c14Spill(cur+gap, n) {
 		// start at the next page boundary instead
+		st.Exclude("F-C14c: table placed so that it occupies more pages than its length (or its header) alone would (constructed around)")
 		gap = toPage
 		if c14Spill(cur+gap, n) {
 			panic("unreachable: an aligned structure cannot spill")
@@ -1316,7 +1320,7 @@ func c14Gen(t *rapid.T, st *vlib.Stats) c14Case {
 	for i := 0; i <= ntab; i++ {
 		if i == c.RootPos {
 			n := 36 + entry*ntab
-			c.RootGap = c14GenGap(t, acur, n, openC)
+			c.RootGap = c14GenGap(t, st, acur, n, openC)
 			acur += c.RootGap + n
 		}
 		if i == ntab {
@@ -1330,7 +1334,7 @@ func c14Gen(t *rapid.T, st *vlib.Stats) c14Case {
 			c14GenBody(t, &tb, 0)
 		}
 		c14GenCorrupt(t, &tb, 28)
-		tb.Gap = c14GenGap(t, acur, tb.length(), openC)
+		tb.Gap = c14GenGap(t, st, acur, tb.length(), openC)
 		acur += tb.Gap + tb.length()
 		c.Tables = append(c.Tables, tb)
 	}
@@ -1341,7 +1345,7 @@ func c14Gen(t *rapid.T, st *vlib.Stats) c14Case {
 		}
 		c14GenBody(t, d, 0)
 		c14GenCorrupt(t, d, 30)
-		d.Gap = c14GenGap(t, acur, d.length(), openC)
+		d.Gap = c14GenGap(t, st, acur, d.length(), openC)
 		acur += d.Gap + d.length()
 		c.Dsdt = d
 		p := c.Tables[fadtAt].Fadt
@@ -1349,13 +1353,10 @@ func c14Gen(t *rapid.T, st *vlib.Stats) c14Case {
 			a := &c14Table{Sig: sigs[ntab+1], Rev: 1}
 			c14GenBody(t, a, 0)
 			c14GenCorrupt(t, a, 30)
-			a.Gap = c14GenGap(t, acur, a.length(), false)
+			a.Gap = c14GenGap(t, st, acur, a.length(), false)
 			acur += a.Gap + a.length()
 			c.Alt = a
 		}
-	}
-	if openC {
-		st.Exclude("F-C14c: layouts in which a table occupies more pages than its length alone would (constructed around)")
 	}
 	if acur > c14ArenaPages*c14Page {
 		t.Fatalf("VERIF-HARNESS C14 generator: image of %d bytes exceeds the arena", acur)
